@@ -121,6 +121,8 @@ class _VClock:
 def _up_packet(i):
     """Application packet number i (contents depend on i mod 4): (port, channel, data)."""
     i &= 3
+    if i == 2:
+        return (3, 2, ())             # a header-only packet (legal: zero data bytes)
     return (1 + i, i, (0xa0 + i, i))
 
 
@@ -148,9 +150,14 @@ class _UsbHandle:
         except Exception as e:  # noqa - a bug in the harness must not be eaten by run()'s except Exception
             import traceback
             raise _Fatal('harness bug in transmit: %r\n%s' % (e, traceback.format_exc()))
+        # status byte of the dongle: bit0 = ack received, bit1 = power detector, bits 4-7 = retransmissions it made.
+        # Both spellings of "no ack" occur (0x00, and the retry count alone once the dongle's own retries are used up);
+        # which one is tied to the environment choice so that the state space does not grow.
+        lost_only = self.w.last_tx_choice == T_LOST
         if not acked:
-            return array.array('B', [0x00])          # dongle: status 0 = no ack, no payload
-        return array.array('B', [0x01] + list(payload))
+            return array.array('B', [0x30 if lost_only else 0x00])
+        st = {T_ACK: 0x01, T_ACK_DATA: 0x11, T_ACK_EMPTY: 0x03}.get(self.w.last_tx_choice, 0x01)
+        return array.array('B', [st] + list(payload))
 
 
 class _OutQueue(queue.Queue):
@@ -359,6 +366,7 @@ class _World:
         self.main = False           # a main-loop choice point has been seen
         self.expect = (0xff,)       # frame the driver should be (re)transmitting
         self.ntx = 0
+        self.last_tx_choice = None
         self.get_timeouts = []
         self.stats_cb = 0
         self.thread = None
@@ -511,6 +519,7 @@ class _World:
         c = self.choose('tx', sorted(opts))
         self.log('tx #%d frame=%s (bit3=%d bit2=%d): %s' % (self.ntx, bytes(frame).hex(), b3, b2, T_NAMES[c]))
         acked = c in (T_ACK, T_ACK_DATA, T_ACK_EMPTY)
+        self.last_tx_choice = c
         payload = ()
         if c != T_LOST:
             payload = self.peer_receive(frame, b3, b2, advance, c)
@@ -719,7 +728,11 @@ def _expand(args):
             new_viol = [(sig, what) for (pos, sig, what) in w.viol if pos == len(h2)]
             old_viol = [v for v in w.viol if v[0] < len(h2)]
             if old_viol:
-                raise HarnessError('violation on an already explored prefix: %r' % (old_viol,))
+                # the same history was clean when it was explored before in this process: the driver's behaviour depends
+                # on something earlier driver threads left behind (module-level state) - this run is a real execution
+                # (several driver threads one after the other in one process) and it violates the clause
+                new_viol = [(sig + ':after_earlier_driver_threads', what + ' (the same history was clean before other '
+                             'driver threads had run in this process)') for (pos, sig, what) in old_viol[:1]]
             if w.state is None and not new_viol:
                 raise HarnessError('no state captured for %r' % (h2,))
             key = _h(w.state) if w.state is not None else _h(('dead', h2))
